@@ -77,6 +77,8 @@ func runCheck(prop, tier string) int {
 	switch prop {
 	case "C01", "C02", "C09", "C10", "C11", "C12", "C13":
 		return runE1(prop, tier)
+	case "C03", "C04", "C07", "C08":
+		return runE3(prop, tier)
 	case "C16":
 		return runC16(tier)
 	case "C20":
@@ -286,7 +288,7 @@ func runE1(prop, tier string) int {
 	rep := NewReport(prop, tier, "model_checking", "E1")
 	plan := planE1(prop, tier)
 	work := workDir()
-	defer os.RemoveAll(work)
+	defer cleanup(work)
 	t0 := time.Now()
 	fx := NewFixture(work+"/fx", dedupPkgs(plan.pkgs))
 	fmt.Fprintf(os.Stderr, "fixture: %d source packages, %d cases (%.1fs)\n", len(fx.Pkgs), len(plan.cases), time.Since(t0).Seconds())
@@ -490,7 +492,7 @@ func replayE1(prop, diag string, payload json.RawMessage, path string) int {
 		fatalf("%v", err)
 	}
 	work := workDir()
-	defer os.RemoveAll(work)
+	defer cleanup(work)
 	sp := &SrcPkg{Dir: rp.PkgDir, Name: "src"}
 	fx := NewFixture(work+"/fx", nil)
 	fx.byDir[rp.PkgDir] = sp
@@ -567,7 +569,7 @@ func runC19(tier string) int {
 	rep := NewReport("C19", tier, "model_checking", "E1+E2+E5")
 	plan := planE1("C19", tier)
 	work := workDir()
-	defer os.RemoveAll(work)
+	defer cleanup(work)
 	fx := NewFixture(work+"/fx", dedupPkgs(plan.pkgs))
 	validateFixture(fx)
 	runCases(fx, plan.cases, rep, plan.oracle)
